@@ -849,6 +849,80 @@ var ShowError fp.Show[error] = show.New(func(a error) string { return "<" + errM
 	return p
 }
 
+// visibilityPackages: exported and unexported fields in every relative order. The oracles
+// identify a field by its declaration position (reflection over the struct type): Ord must be
+// lexicographic in that order, Show must show the names in that order, Eq / Monoid / Clone are
+// checked field by field. Plain structs, @fp.Value structs, structs of another package (their
+// unexported fields are invisible to the generated code and stay zero) and structs reached
+// through recursive=true (their on-demand instances are law-checked themselves).
+func visibilityPackages() []*pkgSpec {
+	all := allTC()
+	mark := func(t *target) { t.Counts = append(t.Counts, "family/visibility-order") }
+	orders := []struct {
+		label string
+		pub   []bool
+	}{
+		{"priv+pub", []bool{false, true}},
+		{"pub+priv", []bool{true, false}},
+		{"priv+pub+priv", []bool{false, true, false}},
+		{"pub+priv+pub", []bool{true, false, true}},
+	}
+	distinct := []string{"int", "string", "[]int"}
+	fieldsOf := func(pub []bool, same bool) string {
+		var b strings.Builder
+		for i, e := range pub {
+			name := fmt.Sprintf("p%d", i+1)
+			if e {
+				name = fmt.Sprintf("Q%d", i+1)
+			}
+			typ := distinct[i]
+			if same {
+				typ = "int"
+			}
+			fmt.Fprintf(&b, "\t%s %s\n", name, typ)
+		}
+		return b.String()
+	}
+	plain := &pkgSpec{Name: "visibility-order/plain"}
+	value := &pkgSpec{Name: "visibility-order/fp.Value"}
+	rec := &pkgSpec{Name: "visibility-order/recursive=true"}
+	for i, o := range orders {
+		for _, same := range []bool{false, true} {
+			sfx, lab := "D", "distinct-types"
+			if same {
+				sfx, lab = "S", "same-type"
+			}
+			name := fmt.Sprintf("M%d%s", i+1, sfx)
+			decl := fmt.Sprintf("type %s struct {\n%s}", name, fieldsOf(o.pub, same))
+			plain.addTyped("plain", "visibility-order/"+o.label+"/"+lab, typeSpec{name: name, decl: decl, tcs: all}, all, mark)
+			if !same {
+				vname := "V" + name
+				value.addTyped("plain", "visibility-order/fp.Value/"+o.label, typeSpec{name: vname, decl: fmt.Sprintf("// @fp.Value\ntype %s struct {\n%s}", vname, fieldsOf(o.pub, false)), tcs: all}, all, mark)
+			}
+			// the mixed struct nested (directly and in a slice) under recursive=true
+			nname := "N" + name
+			rec.addType(nname, fmt.Sprintf("type %s struct {\n%s}", nname, fieldsOf(o.pub, same)))
+			if !same || len(o.pub) == 3 {
+				rec.addTyped("rectrue", "visibility-order/"+o.label+"/"+lab, typeSpec{name: "H" + name, decl: fmt.Sprintf("type H%s struct {\n\tn int\n\ta %s\n\tb []%s\n}", name, nname, nname), tcs: all}, all, func(t *target) {
+					mark(t)
+					t.RecTrue = true
+					t.Counts = append(t.Counts, "directive/recursive=true")
+				})
+			}
+		}
+	}
+	foreign := &pkgSpec{Name: "visibility-order/type-package"}
+	fm := func(t *target) { mark(t); t.Counts = append(t.Counts, "directive/type-of-another-package") }
+	foreign.addTyped("foreign", "visibility-order/pub+priv+pub/distinct-types", typeSpec{name: "tp.Vis4", tcs: all}, all, fm)
+	foreign.addTyped("foreign", "visibility-order/pub+priv+pub/same-type", typeSpec{name: "tp.Vis5", tcs: all}, all, fm)
+	foreignRec := &pkgSpec{Name: "visibility-order/type-package,recursive=true"}
+	foreignRec.addTyped("rectrue", "visibility-order/type-package/pub+priv+pub", typeSpec{name: "HV", decl: "type HV struct {\n\tn int\n\ta tp.Vis4\n\tb []tp.Vis5\n}", tcs: all}, all, func(t *target) {
+		fm(t)
+		t.RecTrue = true
+	})
+	return []*pkgSpec{plain, value, rec, foreign, foreignRec}
+}
+
 // bytesPackage: []byte fields (eq and hash have Bytes instances, the other packages use Slice).
 func bytesPackage() *pkgSpec {
 	p := &pkgSpec{Name: "plain-bytes/01"}
@@ -959,6 +1033,7 @@ func allPackages(thorough bool) []*pkgSpec {
 	out = append(out, seqPackages(thorough)...)
 	out = append(out, errorPackage())
 	out = append(out, bytesPackage())
+	out = append(out, visibilityPackages()...)
 	if thorough {
 		out = append(out, customPackages(thorough)...)
 	}
